@@ -160,7 +160,7 @@ func countStrings(alpha, n int) int {
 // the expectations of rule (A) (mode M2).
 func EnumerateTexts(ctx *core.Ctx, name string, alpha []string, real map[rune]string, n int) (*TextFamily, error) {
 	cfg := fmt.Sprintf("CONSTANTS\n  Alpha <- AlphaRun\n  N = %d\n  Dev = {}\nINIT EnumInit\nNEXT Next\nINVARIANT PrintText\nCHECK_DEADLOCK FALSE\n", n)
-	res, err := ctx.RunTLC(core.TLCOpts{Module: "C15Run", Cfg: cfg, Files: map[string][]byte{"C15Run.tla": wrapperModule(alpha)},
+	res, err := runTLC(ctx, core.TLCOpts{Module: "C15Run", Cfg: cfg, Files: map[string][]byte{"C15Run.tla": wrapperModule(alpha)},
 		Workers: 1, Timeout: 8 * time.Minute, Label: "M2-enumerate-" + name})
 	if err != nil {
 		return nil, err
